@@ -1661,7 +1661,7 @@ impl From<OutboundIn> for BytesMut {
         }
     }
 
-//@@ octo-squirrel-server/src/server/shadowsocks.rs:343-348  mod tcp / struct PayloadCodec  sha=0a0deb8ebe3d5147
+//@@ octo-squirrel-server/src/server/shadowsocks.rs:345-350  mod tcp / struct PayloadCodec  sha=0a0deb8ebe3d5147
 pub struct sssrv__PayloadCodec<const N: usize> {
         context: Arc<Context<N>>,
         session: Session<N>,
@@ -1669,13 +1669,13 @@ pub struct sssrv__PayloadCodec<const N: usize> {
         state: sssrv__State,
     }
 
-//@@ octo-squirrel-server/src/server/shadowsocks.rs:350-353  mod tcp / enum State  sha=d8ea95c44e9c2239
+//@@ octo-squirrel-server/src/server/shadowsocks.rs:352-355  mod tcp / enum State  sha=d8ea95c44e9c2239
 enum sssrv__State {
         Header,
         Body,
     }
 
-//@@ octo-squirrel-server/src/server/shadowsocks.rs:355-360  mod tcp / impl PayloadCodec  sha=f3c70b3003054fc0
+//@@ octo-squirrel-server/src/server/shadowsocks.rs:357-362  mod tcp / impl PayloadCodec  sha=f3c70b3003054fc0
 impl<const N: usize> sssrv__PayloadCodec<N> {
         fn new(context: Arc<Context<N>>, mode: Mode, address: Option<Address>) -> Self {
             let session = Session::new(mode, Identity::default(), address);
@@ -1683,7 +1683,7 @@ impl<const N: usize> sssrv__PayloadCodec<N> {
         }
     }
 
-//@@ octo-squirrel-server/src/server/shadowsocks.rs:362-368  mod tcp / impl Encoder for PayloadCodec  sha=b2d35db0ddf93f3b
+//@@ octo-squirrel-server/src/server/shadowsocks.rs:364-370  mod tcp / impl Encoder for PayloadCodec  sha=b2d35db0ddf93f3b
 impl<const N: usize> sssrv__PayloadCodec<N> {
 
         fn encode(&mut self, item: OutboundIn, dst: &mut BytesMut) -> Result<()> {
@@ -1691,7 +1691,7 @@ impl<const N: usize> sssrv__PayloadCodec<N> {
         }
     }
 
-//@@ octo-squirrel-server/src/server/shadowsocks.rs:370-394  mod tcp / impl Decoder for PayloadCodec  sha=55359f5fea8781a0
+//@@ octo-squirrel-server/src/server/shadowsocks.rs:372-396  mod tcp / impl Decoder for PayloadCodec  sha=55359f5fea8781a0
 impl<const N: usize> sssrv__PayloadCodec<N> {
 
         fn decode(&mut self, src: &mut BytesMut, Tracked(vcache): Tracked<&mut SaltCache>) -> Result<Option<InboundIn>> {
@@ -1975,11 +1975,11 @@ impl<const N: usize> Client<'_, N> {
         }
     }
 
-//@@ octo-squirrel-server/src/server/shadowsocks.rs:320-321  mod tcp / struct ServerContext  sha=e2f8b9f4fe8a2fbd
+//@@ octo-squirrel-server/src/server/shadowsocks.rs:322-323  mod tcp / struct ServerContext  sha=e2f8b9f4fe8a2fbd
 #[derive(Clone)]
     pub struct ServerContext<const N: usize>(Arc<Context<N>>);
 
-//@@ octo-squirrel-server/src/server/shadowsocks.rs:323-335  mod tcp / impl ServerContext  sha=8a129de5264a3aff
+//@@ octo-squirrel-server/src/server/shadowsocks.rs:325-337  mod tcp / impl ServerContext  sha=8a129de5264a3aff
 impl<const N: usize> ServerContext<N> {
         fn init(config: &ServerConfig<SslConfig>, user_manager: Arc<ServerUserManager<N>>) -> Result<Self> {
             let kind = config.cipher;
@@ -1994,20 +1994,20 @@ impl<const N: usize> ServerContext<N> {
         }
     }
 
-//@@ octo-squirrel-server/src/server/shadowsocks.rs:172-175  struct UdpAssociate  sha=9a4a81ec24ed2a1c
+//@@ octo-squirrel-server/src/server/shadowsocks.rs:174-177  struct UdpAssociate  sha=9a4a81ec24ed2a1c
 struct UdpAssociate<const N: usize> {
     task: JoinHandle<()>,
     sender: Sender<(BytesMut, Address, udp__Session<N>)>,
 }
 
-//@@ octo-squirrel-server/src/server/shadowsocks.rs:177-181  impl UdpAssociate {fn try_send}  sha=c27fafa573386ec8
+//@@ octo-squirrel-server/src/server/shadowsocks.rs:179-183  impl UdpAssociate {fn try_send}  sha=c27fafa573386ec8
 impl<const N: usize> UdpAssociate<N> {
     fn try_send(&self, msg: (BytesMut, Address, udp__Session<N>), Tracked(vlog): Tracked<&mut AssocLog>) -> Result<(), mpsc::error::SendError<(BytesMut, Address, udp__Session<N>)>> {
         self.sender.send(msg, Tracked(vlog))
     }
 }
 
-//@@ octo-squirrel-server/src/server/shadowsocks.rs:190-199  struct UdpAssociateContext  sha=78838acd7ad7e4db
+//@@ octo-squirrel-server/src/server/shadowsocks.rs:192-201  struct UdpAssociateContext  sha=78838acd7ad7e4db
 struct UdpAssociateContext<const N: usize> {
     client_session_id: u64,
     client_session_filter: PacketWindowFilter,
@@ -2019,12 +2019,12 @@ struct UdpAssociateContext<const N: usize> {
     user: Option<Arc<ServerUser<N>>>,
 }
 
-//@@ octo-squirrel-server/src/server/shadowsocks.rs:304-306  mod udp / fn new_codec  sha=310cf0e86d70ac1a
+//@@ octo-squirrel-server/src/server/shadowsocks.rs:306-308  mod udp / fn new_codec  sha=310cf0e86d70ac1a
 fn new_codec<'a, const N: usize>(config: &ServerConfig<SslConfig>, context: udp__Context<'a, N>) -> anyhow::Result<udp__SessionCodec<'a, N>> {
         Ok(udp__SessionCodec::<'a, N>::new(context, udp__AEADCipherCodec::new(config.cipher)))
     }
 
-//@@ octo-squirrel-server/src/server/shadowsocks.rs:84-170  fn startup_udp  sha=eea43b948751bef5
+//@@ octo-squirrel-server/src/server/shadowsocks.rs:84-172  fn startup_udp  sha=9d89544655b737b4
 fn startup_udp<const N: usize>(config: &ServerConfig<SslConfig>, user_manager: &Arc<ServerUserManager<N>>, Tracked(vlog): Tracked<&mut AssocLog>) -> anyhow::Result<()> {
     if !config.mode.enable_udp() && !config.mode.enable_quic() {
         return Ok(());
@@ -2040,7 +2040,9 @@ fn startup_udp<const N: usize>(config: &ServerConfig<SslConfig>, user_manager: &
         let inbound = UdpSocket::bind(verif_string())?;
         let (tx, mut rx) = mpsc::channel::<(BytesMut, Address, SocketAddr, udp__Session<N>)>(1024);
         let ttl = Duration::from_secs(300);
-        let mut net_map: LruCache<u64, UdpAssociate<N>> = LruCache::with_expiry_duration_and_capacity(ttl, 10240);
+        // a 2022 session is named by its client session id; the original AEAD ciphers carry no session id on the wire: there a client is its address
+        let by_address = !config.cipher.is_aead_2022();
+        let mut net_map: LruCache<(u64, Option<SocketAddr>), UdpAssociate<N>> = LruCache::with_expiry_duration_and_capacity(ttl, 10240);
         let mut cleanup_timer = time::interval(ttl);
         /*R2*/
         let mut buf = [0; 0x10000];
@@ -2052,7 +2054,7 @@ fn startup_udp<const N: usize>(config: &ServerConfig<SslConfig>, user_manager: &
                 // p_s_c
                 1 => { let peer_msg = rx.recv(Tracked(vlog)); {
                     if let Some((content, peer_addr, client_addr, session)) = peer_msg {
-                        net_map.get(&session.client_session_id); // keep alive
+                        net_map.get(&(session.client_session_id, by_address.then_some(client_addr))); // keep alive
                         let mut dst = BytesMut::new();
                         if let Err(e) = udp__SessionCodec::encode(&codec, (content, peer_addr, session), &mut dst) {
                             ()
@@ -2071,7 +2073,7 @@ fn startup_udp<const N: usize>(config: &ServerConfig<SslConfig>, user_manager: &
                             let mut src = BytesMut::from(&buf[..len]);
                             match udp__SessionCodec::<N>::decode(&codec, &mut src) {
                                 Ok(Some((content, peer_addr, session))) => {
-                                    let key = session.client_session_id;
+                                    let key = (session.client_session_id, by_address.then_some(client_addr));
                                     // an association whose task has ended (unresolvable or unreachable target) is replaced, never fatal for the service
                                     if net_map.get(&key).is_some_and(|assoc| assoc.task.is_finished()) {
                                         net_map.remove(&key);
@@ -2155,7 +2157,7 @@ fn startup_tcp<const N: usize>(config: &ServerConfig<SslConfig>, user_manager: &
     srv__startup_tcp(context, config, |c| Ok(sssrv__PayloadCodec::from(c)))
 }
 
-//@@ octo-squirrel-server/src/server/shadowsocks.rs:201-296  impl UdpAssociateContext {fn relay,fn validate_packet_id}  sha=83f5dd0af9b9d8fe
+//@@ octo-squirrel-server/src/server/shadowsocks.rs:203-298  impl UdpAssociateContext {fn relay,fn validate_packet_id}  sha=83f5dd0af9b9d8fe
 impl<const N: usize> UdpAssociateContext<N> {
 
     fn relay(&mut self, mut receiver: Receiver<(BytesMut, Address, udp__Session<N>)>, Tracked(vlog): Tracked<&mut AssocLog>) {
